@@ -18,10 +18,11 @@ Variable cb : cb_oracle.
 Variable g : cfg.
 
 (* when an API call returns, the caller may release the chunk: what in_current_data / out_current_data still point
-   to is stale. The model forgets the bytes (k_data := None, offsets kept), so that a later use of the stale
+   to is stale. The model forgets the bytes (k_data := Some [], offsets kept), so that a later use of the stale
    pointer with a non-zero length is a fault (MTxCommon.req_receiver_send_data / MTxRes twin). *)
-Definition forget_chunks (c : connp) : connp :=
-  c <| c_in := (c_in c) <| k_data := None |> |> <| c_out := (c_out c) <| k_data := None |> |>.
+Definition forget_one (k : cursor) : cursor :=
+  match k_data k with Some _ => k <| k_data := Some [] |> | None => k end.   (* a non-NULL pointer with no readable byte left *)
+Definition forget_chunks (c : connp) : connp := c <| c_in ::= forget_one |> <| c_out ::= forget_one |>.
 Definition finish_call (c : connp) (rc : Z) (consumed : nat) (ev : bool) : connp * cp_result :=
   (forget_chunks c <| c_events := [] |>,
    mkres rc consumed (c_in_status c) (c_out_status c) (length (c_txs c))
